@@ -247,9 +247,11 @@ static void *mn_tls_new(void)
 
 static int mn_item_cmp(const void *a, const void *b)
 {
+	/* small k first (cheap, so a deadline cuts only the largest k); within k the big subtrees
+	 * (small first column) first, which leaves the tiny ones to even out the tail */
 	const mn_item_t *x = a, *y = b;
-	if (x->k != y->k) return y->k - x->k;       /* big k first */
-	if (x->c1 != y->c1) return x->c1 - y->c1;   /* small first column = big subtree first */
+	if (x->k != y->k) return x->k - y->k;
+	if (x->c1 != y->c1) return x->c1 - y->c1;
 	return x->ridx - y->ridx;
 }
 
